@@ -1024,8 +1024,38 @@ fn pending_program(name: &str, e: &PX, contrib: fn(i64) -> i64, lp: usize, brk: 
     PendingCase { tpl, request }
 }
 
+/// an array literal longer than 65535 elements: `ConstructArray(65535)`, then `Duplicate; element; ArrayPush` for
+/// every further element — the jump block is one of those, with the array and its duplicate pending
+fn pending_big_array(brk: bool) -> PendingCase {
+    let j = JumpSpec { cond: if brk { "i == 3" } else { "i == 2" }, brk };
+    let zeros = vec!["0"; 65535].join(", ");
+    let src = format!(
+        "var acc = 0\nlet r = (100 + {{\n  for i in [1, 2, 3, 4] {{\n    let big = [{zeros}, i, {}, 7]\n    acc = (acc + (i * (big[65536] + big[65535])))\n  }}\n  acc\n}})\nprintln(r)\nprintln(\"end\")\n",
+        px_src(&jv("10"), &j, 2)
+    );
+    let first = vec!["( leaf 1 )"; 65535].join(" ");
+    let request = format!(
+        "pending ( prog ( let ( leaf 1 ) ) ( let ( seq 1 ( leaf 1 ) ( block 1 ( for ( leaf 1 ) ( let ( bigarray ( first {first} ) ( rest ( leaf 1 ) {} ( leaf 1 ) ) ) ) ( assign ( leaf 1 ) ) ) ( expr ( leaf 1 ) ) ) ) ) )",
+        px_sx(&jv("10"), &j)
+    );
+    let iters: Vec<i64> = if brk { vec![1, 2] } else { vec![1, 3, 4] };
+    let total: i64 = 100 + iters.iter().map(|i| i * (10 + i)).sum::<i64>();
+    let mut t = tpl(
+        format!("pending array-literal-beyond-65535 / for-array / {} / statement / main", if brk { "break" } else { "continue" }),
+        "pending-jump",
+        &["C01", "C02"],
+        src,
+        Expect::Out(format!("{total}\nend\n")),
+    );
+    t.heavy = true;
+    PendingCase { tpl: t, request }
+}
+
 pub fn pending_cases(quick: bool) -> Vec<PendingCase> {
-    let mut v = vec![];
+    let mut v = vec![pending_big_array(false)];
+    if !quick {
+        v.push(pending_big_array(true));
+    }
     for (ci, (name, e, contrib)) in pending_contexts().into_iter().enumerate() {
         for lp in 0..3 {
             for brk in [false, true] {
